@@ -67,11 +67,18 @@ Finish(h, key) ==
                     orbit(j) == IF \E k \in 1..5 : wb(k, j - 26 * (k - 1)) = 1 THEN 1 ELSE 0
                 IN LimbsOfBits([j \in 1..128 |-> orbit(j - 1)], 10)
       pad == LimbsOfBytes(SubSeq(key, 17, 32), 10)
+      \* the closing addition is done in four 32-bit words with a carry: the case where a carry arrives at a word whose sum is already 0xffffffff
+      pb == BytesOfLimbs(packed, 16)   sb == SubSeq(key, 17, 32)
+      low(b, k) == LimbsOfBytes(SubSeq(b, 1, 4 * k), 10)
+      word(b, k) == LimbsOfBytes(SubSeq(b, 4 * k + 1, 4 * k + 4), 3)
+      cin(k) == BytesOfLimbs(AddN(low(pb, k), low(sb, k)), 4 * k + 1)[4 * k + 1] # 0
+      sat(k) == TrimTo(PadTo(AddN(word(pb, k), word(sb, k)), 3), 3) = <<8191, 8191, 63>>
   IN [tag |-> BytesOfLimbs(AddN(packed, pad), 16),
       cov |-> (IF NonZero(c1) THEN {"fin_c1"} ELSE {}) \cup (IF NonZero(c2) THEN {"fin_c2"} ELSE {}) \cup (IF NonZero(c3) THEN {"fin_c3"} ELSE {})
               \cup (IF NonZero(c4) THEN {"fin_wrap"} ELSE {}) \cup (IF NonZero(c0) THEN {"fin_h0_carry"} ELSE {})
               \cup (IF NonZero(c0) /\ a1[1] % 2 = 1 THEN {"fin_h0_carry_h1_odd"} ELSE {})
-              \cup (IF ge THEN {"sel_ge_p"} ELSE {"sel_lt_p"}) \cup (IF NonZero(Hi26(w[2])) THEN {"pack_h1_overflow"} ELSE {})]
+              \cup (IF ge THEN {"sel_ge_p"} ELSE {"sel_lt_p"}) \cup (IF NonZero(Hi26(w[2])) THEN {"pack_h1_overflow"} ELSE {})
+              \cup (IF \E k \in 1..3 : cin(k) /\ sat(k) THEN {"pad_carry_into_saturated"} ELSE {})]
 Donna(key, msg) ==
   LET r == RLimbs(key)
       nfull == Len(msg) \div 16
@@ -86,7 +93,7 @@ Donna(key, msg) ==
       f == Finish(a2.h, key)
   IN [tag |-> f.tag, cov |-> a2.cov \cup f.cov]
 
-CovSeq(S) == LET names == <<"blk_wrap", "blk_h0_carry", "blk_h1_unnormalised", "fin_c1", "fin_c2", "fin_c3", "fin_wrap", "fin_h0_carry", "fin_h0_carry_h1_odd", "sel_ge_p", "sel_lt_p", "pack_h1_overflow">>
+CovSeq(S) == LET names == <<"blk_wrap", "blk_h0_carry", "blk_h1_unnormalised", "fin_c1", "fin_c2", "fin_c3", "fin_wrap", "fin_h0_carry", "fin_h0_carry_h1_odd", "sel_ge_p", "sel_lt_p", "pack_h1_overflow", "pad_carry_into_saturated">>
                IN SelectSeq(names, LAMBDA n : n \in S)
 Init == hi \in 1..Len(Rec) /\ l = 1 /\ ok = TRUE
 Step == /\ ok /\ l <= Len(Rec[hi].ev)
